@@ -1,18 +1,20 @@
 META = {
  'manifest': {'text': 'Bounded symbolic model checking of the real HLL register arrays (Hll4Array with aux exception map, Hll6Array, Hll8Array) at lg_k = 4, started full-size: after up to 3 symbolic coupons (any slot, any 6-bit value) the logical register of every slot equals the per-slot maximum for all three widths, emptiness and HLL_4 cur_min bookkeeping are consistent, and converting to another width keeps the registers.',
-              'note': 'estimator accumulators (hipAndKxQIncrementalUpdate, floating point) are skipped by a stub and not claimed; unit level: coupons are fed to the array classes directly (hashing / coupon extraction, list and set mode, promotion and the estimators are not encoded); cur_min shifts need >= 16 updates and are outside the bound'},
+              'note': 'estimator accumulators (hipAndKxQIncrementalUpdate, floating point) are skipped by a stub and not claimed; unit level: coupons are fed to the array classes directly (hashing / coupon extraction, list and set mode, promotion and the estimators are not encoded); one cur_min shift (0 -> 1) is covered from a concrete 16-coupon prefix only; conversion constructors are checked on concrete prefixes (no symbolic coupon)'},
  'functions_encoded': ['Hll4Array::couponUpdate/internalHll4Update/getSlot/putSlot, AuxHashMap::mustAdd/mustReplace/mustFindValueFor/newAuxHashMap', 'Hll6Array::couponUpdate/internalHll6Update', 'Hll8Array::couponUpdate/internalHll8Update', 'HllArray::hipAndKxQIncrementalUpdate, isEmpty, const_iterator + get_value', 'Hll4/6/8Array(const HllArray&) conversion constructors'],
  'bounds': 'lg_k = 4 (16 slots), a concrete prefix of coupons (none / aux exceptions / mixed) followed by 1 symbolic coupon (quick) or 2-3 (thorough), values 1..63',
- 'stubs': ['HllArray::hipAndKxQIncrementalUpdate -> no-op (estimator state is outside the claim)', 'Hll4Array::shiftToBiggerCurMin -> assert-unreachable cut (discharged by the solver)'], 'assumes': [], 'outside': ['coupon = f(MurmurHash3) extraction and every update overload', 'LIST / SET modes and promotion', 'shiftToBiggerCurMin (needs all 16 slots raised)', 'estimators and bounds (floating point; C06)', 'lg_k > 4'],
+ 'stubs': ['HllArray::hipAndKxQIncrementalUpdate -> no-op (estimator state is outside the claim)', 'Hll4Array::shiftToBiggerCurMin -> assert-unreachable cut (discharged by the solver) in every query except the *_shift ones, which execute the real function'], 'assumes': [], 'outside': ['coupon = f(MurmurHash3) extraction and every update overload', 'LIST / SET modes and promotion', 'shiftToBiggerCurMin from a symbolic state (only the concrete shift prefix is covered)', 'conversion of a symbolic state', 'estimators and bounds (floating point; C06)', 'lg_k > 4'],
 }
 def queries(tier):
     qs = []
     def cp(slot, val): return f'{(val << 26) | slot}u,'
-    prefixes = {'none': '', 'aux': cp(3, 20) + cp(5, 2), 'aux2': cp(3, 20) + cp(3, 40) + cp(7, 16) + cp(0, 1), 'mixed': cp(1, 14) + cp(2, 15) + cp(9, 63) + cp(9, 1) + cp(15, 33)}
-    for (nc, pfx, conv) in [(0, 'none', 0), (1, 'none', 0), (1, 'aux', 0), (1, 'aux2', 0), (1, 'mixed', 0)] + ([(2, 'aux', 0)] if tier == 'thorough' else []):   # 2-3 free coupons from an empty array and the conversion constructors: no verdict in 1800 s
+    prefixes = {'none': '', 'aux': cp(3, 20) + cp(5, 2), 'aux2': cp(3, 20) + cp(3, 40) + cp(7, 16) + cp(0, 1), 'mixed': cp(1, 14) + cp(2, 15) + cp(9, 63) + cp(9, 1) + cp(15, 33),
+                # all 16 slots raised: the last coupon triggers shiftToBiggerCurMin (cur_min 0 -> 1) with a live aux exception (slot 3) and one nibble above cur_min (slot 5)
+                'shift': ''.join(cp(i, 20 if i == 3 else 2 if i == 5 else 1) for i in range(16))}
+    for (nc, pfx, conv) in [(0, 'none', 0), (1, 'none', 0), (1, 'aux', 0), (1, 'aux2', 0), (1, 'mixed', 0), (0, 'shift', 1), (1, 'shift', 0), (0, 'aux2', 1), (0, 'mixed', 1)] + ([(2, 'aux', 0)] if tier == 'thorough' else []):   # 2-3 free coupons from an empty array and the conversion constructors: no verdict in 1800 s
         d = {'NC': nc, 'PREFIX': prefixes[pfx]}
         if conv: d['CONVERT'] = None
         qs.append(Q(f'hll_arrays_c{nc}_{pfx}' + ('_conv' if conv else ''), 'hll_arrays', 'c03_hll_arrays.c', defs=d, tu_defs={'__OPT': '-O1 -fno-inline-functions -fno-inline -fno-pic'}, unwind=20,
                     unwindset={'^(harness|verif_mem.*|verif_new.*)$': 40}, timeout=(400 if tier == 'quick' else 1800), native_vectors=300,
-                    c_defs={'VERIF_NEW_CAPN': 40, 'VERIF_VEC_CAP': 8, 'VERIF_CUT_HLL4_SHIFT': None, 'VERIF_SKIP_HLL_KXQ': None}, slice_formula=True, mem_gb=(10 if tier == 'quick' else 28)))
+                    c_defs={'VERIF_NEW_CAPN': 40, 'VERIF_VEC_CAP': 8, **({} if pfx == 'shift' else {'VERIF_CUT_HLL4_SHIFT': None}), 'VERIF_SKIP_HLL_KXQ': None}, slice_formula=True, mem_gb=(10 if tier == 'quick' else 28)))
     return qs
